@@ -500,6 +500,10 @@ func main() {
 	for _, s := range rootScenarios() {
 		rn.one(s, "root-sweep")
 	}
+	// 1c. crowded subdirectories: objects that cannot be stat-ed or removed among many stale entries
+	for _, s := range crowdScenarios() {
+		rn.one(s, "crowd-sweep")
+	}
 	// 2. a small exhaustive block: one entry (with contents and empty), every age of the pool,
 	// each record class, trim now
 	for _, a := range agePool {
@@ -558,7 +562,7 @@ func main() {
 	// 6. two processes: Trim concurrent with lookups; Trim killed half-way
 	rn.processBlocks(r, nStress, nKill)
 
-	res.Rule = fmt.Sprintf("corpus and hand-written histories first (re-store of a stale output, also empty and shared; Put into a missing subdirectory; trim.txt a directory; symbolic links); then one Put entry (with contents / empty) + hand-made files for every age of the pool (thresholds 1h, 1d, 5d, 5d+1h each -1h,-1s,-1ns,0,+1ns,+1s,+1h, plus fresh/old/future ages) x {no, old, corrupt} record; a Get/GetFile/GetBytes/OutputFile/Put at every such distance before the trim; the one-hour allowance; which files each lookup protects; %d generated scenarios (0-4 Put entries over 4 contents one of which is empty, 0-8 hand-made files/directories/links in subdirectories and the cache root, 13 classes of trim.txt, 0-5 events before the trim and 0-4 after it, missing subdirectories); %d clock/record pairs for the due-test alone; %d strings for ParseInt(TrimSpace(.)); %d rounds of Trim concurrent with lookups in another process, %d rounds of a Trim killed half-way, and rounds of a Trim started while the record of a trim completed less than a day ago is being rewritten under its lock (lock, truncate, hold, write: the steps of lockedfile.Write) -- it must wait and then do nothing at all; every call of every history must leave the process with the descriptors it had (/proc/self/fd, collector off). The cache directory's own path is an input: %d root classes (glob metacharacters [ ] * ? \\ { } ^ ! in the directory's name and in an ancestor's, regexp and shell metacharacters, printf verbs, blanks, control characters, bytes that are not UTF-8, a 240-byte name, names that look like an entry / trim.txt / a subdirectory; the directory opened through trailing and doubled separators, '.' and '..' elements; opened through symbolic links -- absolute, relative, chained, with metacharacters in the link's or the target's name, in an ancestor) each run two fixed histories (due trim with stale/recent/looked-up/re-stored entries and foreign files, then a second trim; a trim that is not due) and are drawn for a quarter of the generated scenarios; every such root has sibling directories that look like other caches and are named as the root's name would match when read as a pattern: they, the links and the parent's listing must be identical after every Trim (outside-untouched); the two-process rounds alternate between a plain and a metacharacter directory name. A case is non-trivial when it contains a Trim call on a non-empty population (or is a due-test / a parsable string / a process round); distinct = distinct scenario. Clock injected through reflect on the real package: %v; epoch = real time. The segments of used / Trim / trimSubdir as TRANSLATED from the source (Gen/CacheSrc.v, extracted) are evaluated against the implementation: the due-test on every clock/record pair of the sweep, the freshness test and the candidate/cutoff/staleness tests on %d single files at the ages of the pool and right at the thresholds.", nScn, nSweep, nParse, nStress, nKill, len(rootSpecs), injectable, nScn)
+	res.Rule = fmt.Sprintf("corpus and hand-written histories first (re-store of a stale output, also empty and shared; Put into a missing subdirectory; trim.txt a directory; symbolic links); then one Put entry (with contents / empty) + hand-made files for every age of the pool (thresholds 1h, 1d, 5d, 5d+1h each -1h,-1s,-1ns,0,+1ns,+1s,+1h, plus fresh/old/future ages) x {no, old, corrupt} record; a Get/GetFile/GetBytes/OutputFile/Put at every such distance before the trim; the one-hour allowance; which files each lookup protects; %d generated scenarios (0-4 Put entries over 4 contents one of which is empty, 0-8 hand-made files/directories/links in subdirectories and the cache root, 13 classes of trim.txt, 0-5 events before the trim and 0-4 after it, missing subdirectories); %d clock/record pairs for the due-test alone; %d strings for ParseInt(TrimSpace(.)); %d rounds of Trim concurrent with lookups in another process, %d rounds of a Trim killed half-way, and rounds of a Trim started while the record of a trim completed less than a day ago is being rewritten under its lock (lock, truncate, hold, write: the steps of lockedfile.Write) -- it must wait and then do nothing at all; every call of every history must leave the process with the descriptors it had (/proc/self/fd, collector off). The cache directory's own path is an input: %d root classes (glob metacharacters [ ] * ? \\ { } ^ ! in the directory's name and in an ancestor's, regexp and shell metacharacters, printf verbs, blanks, control characters, bytes that are not UTF-8, a 240-byte name, names that look like an entry / trim.txt / a subdirectory; the directory opened through trailing and doubled separators, '.' and '..' elements; opened through symbolic links -- absolute, relative, chained, with metacharacters in the link's or the target's name, in an ancestor) each run two fixed histories (due trim with stale/recent/looked-up/re-stored entries and foreign files, then a second trim; a trim that is not due) and are drawn for a quarter of the generated scenarios; every such root has sibling directories that look like other caches and are named as the root's name would match when read as a pattern: they, the links and the parent's listing must be identical after every Trim (outside-untouched); the two-process rounds alternate between a plain and a metacharacter directory name. Crowded subdirectories: 6-14 entry-named objects in one subdirectory, most of them stale, a share of them dangling links / directories / links (fixed sweep per kind, and a sixth of the generated scenarios): every stale file must go whatever the listing order (no object shields the entries behind it). A case is non-trivial when it contains a Trim call on a non-empty population (or is a due-test / a parsable string / a process round); distinct = distinct scenario. Clock injected through reflect on the real package: %v; epoch = real time. The segments of used / Trim / trimSubdir as TRANSLATED from the source (Gen/CacheSrc.v, extracted) are evaluated against the implementation: the due-test on every clock/record pair of the sweep, the freshness test and the candidate/cutoff/staleness tests on %d single files at the ages of the pool and right at the thresholds.", nScn, nSweep, nParse, nStress, nKill, len(rootSpecs), injectable, nScn)
 	res.Write(f.Out)
 }
 
